@@ -137,7 +137,7 @@ def decide(pid, tier, parts, level, meta):
                            'replayable': bool(replayable)}, fh, indent=1)
             tail = '' if replayable else ' no-failing-input-found'
             print('VIOLATION property=%s replay=%s obligation="%s" function=%s%s' % (
-                pid, path, (f.get('obligation') or '')[:160].replace('"', "'"), f.get('function'), tail))
+                pid, path, ' '.join((f.get('obligation') or '').split())[:160].replace('"', "'"), f.get('function'), tail))
         code = 1
     elif undecided:
         for u in undecided:
